@@ -41,15 +41,15 @@ def make_inverter(sc, host=HOST):
 def proto_state(inv):
     p = inv._protocol
     tr = getattr(p, "_transport", None)
-    fut = p.response_future
-    tm = p._timer
+    fut = getattr(p, "response_future", None)
+    tm = getattr(p, "_timer", None)
     return {
         "transport": None if tr is None else ("closing" if tr.is_closing() else "open"),
         "future": None if fut is None else ("done" if fut.done() else "pending"),
         "timer": None if tm is None else ("cancelled" if tm.cancelled() else "armed"),
         "retry": getattr(p, "_retry", None),
-        "locked": bool(p._lock and p._lock.locked()),
-        "partial": bool(p._partial_data),
+        "locked": bool(getattr(p, "_lock", None) and p._lock.locked()),
+        "partial": bool(getattr(p, "_partial_data", None)),
     }
 
 
